@@ -418,15 +418,15 @@ func c17(r *vc.Run) int {
 		r.Violation("data-race/"+s, fmt.Sprintf("race detector report x%d in the stats primitives: %s", n, s), nil)
 	}
 	cov := map[string]any{
-		"evaluations":         m.Evaluations,
-		"distinct_nontrivial": len(m.Distinct),
-		"rule":                "one evaluation = one concurrent history (8-32 goroutines) on a real counter / rate total / mean / per-key bucket checked with porcupine, or one bulk burst with exact quiescent totals; distinct = distinct (primitive, goroutines, ops, reset?, number of overlapping operations) with at least one overlap",
-		"samples":             m.Samples,
-		"events":              m.Events,
-		"children":           m.Children,
-		"pipeline_runs":      len(pipeRuns),
+		"evaluations":                  m.Evaluations,
+		"distinct_nontrivial":          len(m.Distinct),
+		"rule":                         "one evaluation = one concurrent history (8-32 goroutines) on a real counter / rate total / mean / per-key bucket checked with porcupine, or one bulk burst with exact quiescent totals; distinct = distinct (primitive, goroutines, ops, reset?, number of overlapping operations) with at least one overlap",
+		"samples":                      m.Samples,
+		"events":                       m.Events,
+		"children":                     m.Children,
+		"pipeline_runs":                len(pipeRuns),
 		"pipeline_counter_comparisons": comparisons,
-		"pipeline_events":    map[string]int{"seeds_inserted": pm.Events["seeds_inserted"], "origin_requests": pm.Events["origin_requests"]},
+		"pipeline_events":              map[string]int{"seeds_inserted": pm.Events["seeds_inserted"], "origin_requests": pm.Events["origin_requests"]},
 	}
 	if cov["samples"] == nil {
 		cov["samples"] = []any{}
